@@ -152,6 +152,35 @@ func evalC12(cases []*gen.Case, repeats int, useCLI, crossStyle bool, cliRunsOpt
 				return true, fmt.Sprintf("separate CLI processes (0 and %d) give different output: %s", k, why), nil
 			}
 		}
+		// history of the output directory: the same run over files that already exist with longer
+		// (and with shorter) content must leave exactly the bytes of a fresh run
+		pre := map[string]string{}
+		for p := range outs[0] {
+			if p != "-" {
+				pre[p] = strings.Repeat("// stale content of an earlier, longer generation\n", 2000)
+			}
+		}
+		if len(pre) > 0 {
+			res, err := gen.RunCLI(base, pre, nil, 60*time.Second, false)
+			if err != nil {
+				return false, "", err
+			}
+			over := map[string]string{}
+			for p, content := range res.Outputs {
+				over[p] = content
+			}
+			for p := range pre {
+				if _, ok := over[p]; !ok {
+					over[p] = "<not rewritten>"
+				}
+			}
+			if res.Stdout != "" {
+				over["-"] = res.Stdout
+			}
+			if ok, why := sourcesEqual(outs[0], over); !ok {
+				return true, "writing over an existing, longer output file gives other bytes than a fresh run: " + why, nil
+			}
+		}
 		// the CLI runs with cwd = tree root and relative arguments: compare with the in-process run of the same style
 		if ok, why := sourcesEqual(resultKey(&rel1), outs[0]); !ok {
 			return true, "CLI process output differs from the in-process run with the same arguments: " + why, nil
@@ -275,6 +304,13 @@ func TestC12(t *testing.T) {
 				}, Required: []string{"mode", "tags"}, Default: &dv}
 				main.Root.Props = append(main.Root.Props, model.Prop{Name: "aaColor", Node: enum}, model.Prop{Name: "zzOptions", Node: opts}, model.Prop{Name: "zzzColor", Node: model.Clone(enum)})
 				c.Count("scenario.struct_default_next_to_enum")
+			}
+		case 7:
+			// definitions whose raw names have equal length and map to one Go identifier: which of them
+			// keeps the unnumbered name must not depend on the run
+			if m.files[0].Root.Kind == model.KObject {
+				addCollidingDefs(rt, c, m.files[0], rapid.SampledFrom([]string{"string", "numeric", "enum", "required"}).Draw(rt, "collidefamily"))
+				c.Count("scenario.colliding_definition_names")
 			}
 		case 6:
 			// mapping options for namespace ids (prefixes of real ids) next to the exact ones, through
